@@ -16,6 +16,9 @@ LEVEL_TEXT = ("static: decides, for all deadline values (they are only compared,
 TECHNIQUE += "; exact evaluation of the event thread's sleep computation (the CFG fragment between ares_timeout and the wait call) over a finite domain of (tv_sec, tv_usec) pairs"
 LEVEL_TEXT += (" (EVLOOP, seventh round) the sleep handed to the wait is decided by interpreting the event thread's own statements for 52 remaining-time values chosen at the rounding "
                "boundaries: >= 1 ms and never shorter than the remaining time whenever a deadline exists, 0 when none does; any spelling of the computation is accepted.")
+TECHNIQUE += "; path search from every unlink of a request from its connection and timer to a settle event (R-C07-REQUEUE, the analysis of R-C14-REQUEUE)"
+LEVEL_TEXT += (" (REQUEUE, eighth round) a request taken off the deadline index is re-sent (which gives it a new deadline), parked and later re-sent, or completed on every path -- "
+               "otherwise it is outstanding without a deadline and no processing call will ever retry or fail it.")
 LEVEL_NOTE = "trusts clang CFG + extractor; OS primitives (poll/epoll/select, pipe) are assumed to behave as documented"
 DESIGN_REF = "DESIGN.md §6/C07"
 EXPLANATION = LEVEL_TEXT
@@ -811,3 +814,5 @@ def run(prog, R, tier):
     r_wake(prog, R)
     r_evloop(prog, R)
     r_wakepipe(prog, R)
+    import C14
+    C14.r_requeue(prog, R, rid="R-C07-REQUEUE")
